@@ -14,6 +14,7 @@ import (
 	"time"
 
 	"github.com/klev-dev/klevdb"
+	"github.com/klev-dev/klevdb/pkg/index"
 	"github.com/klev-dev/klevdb/pkg/message"
 )
 
@@ -137,4 +138,104 @@ func TestC13Boundary(t *testing.T) {
 	}
 	st.Eval(1)
 	st.NonTrivialStr("api|largest")
+}
+
+// TestC13IndexSizes: index files whose size is around the sizes readers like to work in (4 KiB, 64 KiB, 256 KiB,
+// 1 MiB, +- a few items) must read back item for item, in all four layouts and both containers, and a log with that
+// many records must give the same index when it is written while publishing, loaded from the file and rebuilt from
+// the log. Histories never reach ten thousand messages in one segment; this is a fixed enumeration of sizes.
+func TestC13IndexSizes(t *testing.T) {
+	st := NewStats("C13")
+	defer st.Write()
+	fail := func(format string, args ...any) {
+		v := &Violation{Oracle: "codec", Msg: fmt.Sprintf(format, args...)}
+		path := WriteReplay("C13", "probe", v, map[string]any{"probe": "index file sizes around block boundaries", "detail": v.Msg})
+		fmt.Printf("%v\nVIOLATION property=C13 replay=%s\n", v, path)
+		t.FailNow()
+	}
+	root := MkScratch("vf-c13i-")
+	defer os.RemoveAll(root)
+	bounds := []int{4096, 65536, 262144, 1 << 20}
+	if !thoroughTier() {
+		bounds = []int{4096, 65536, 262144}
+	}
+	for _, keys := range []bool{false, true} {
+		for _, times := range []bool{false, true} {
+			isz := int(RefItemSize(keys, times))
+			for _, v2 := range []bool{true, false} {
+				for _, b := range bounds {
+					for _, d := range []int{-1, 0, 1, 2, 7} {
+						n := b/isz + d
+						items := make([]RItem, n)
+						ts := int64(1000)
+						for i := range items {
+							ts += int64(i % 3)
+							items[i] = RItem{Off: int64(5 + 2*i), Pos: int64(8 + 40*i), TS: ts, KH: uint64(i)*0x9E3779B97F4A7C15 + 1}
+							if !times {
+								items[i].TS = 0
+							}
+							if !keys {
+								items[i].KH = 0
+							}
+						}
+						p := filepath.Join(root, "x.index")
+						if err := os.WriteFile(p, RefEncodeIndex(v2, items, keys, times), 0600); err != nil {
+							fail("write: %v", err)
+						}
+						got, err := index.Read(p, 5, index.Params{Times: times, Keys: keys})
+						st.Eval(1)
+						st.NonTrivialStr(fmt.Sprintf("idxsize|%v|%v|%v|%d", keys, times, v2, n))
+						if err != nil || len(got) != n {
+							fail("index.Read of %d items (%d bytes each, keys=%v times=%v, container v2=%v): %d items, %v", n, isz, keys, times, v2, len(got), err)
+						}
+						for i := range items {
+							if got[i].Offset != items[i].Off || got[i].Position != items[i].Pos || got[i].Timestamp != items[i].TS || got[i].KeyHash != items[i].KH {
+								fail("index.Read of %d items (%d bytes each, keys=%v times=%v, container v2=%v): item %d is %+v, the file says %+v", n, isz, keys, times, v2, i, got[i], items[i])
+							}
+						}
+					}
+				}
+			}
+		}
+	}
+	st.Inc("index_size_probes")
+	// through the API: one segment with more records than fit in 256 KiB of 24-byte items, reopened and re-read
+	for _, cfg := range [][2]bool{{true, false}, {false, true}} {
+		dir := filepath.Join(root, fmt.Sprintf("api-%v-%v", cfg[0], cfg[1]))
+		opts := klevdb.Options{CreateDirs: true, KeyIndex: cfg[0], TimeIndex: cfg[1], Rollover: 1 << 30}
+		l, err := klevdb.Open(dir, opts)
+		if err != nil {
+			fail("open: %v", err)
+		}
+		const N = 11000
+		batch := make([]klevdb.Message, 500)
+		for i := 0; i < N; i += len(batch) {
+			for j := range batch {
+				batch[j] = klevdb.Message{Time: time.UnixMicro(int64(1000 + i + j)), Key: []byte(fmt.Sprintf("k%d", (i+j)%7)), Value: []byte("v")}
+			}
+			if _, err := l.Publish(batch); err != nil {
+				fail("publish: %v", err)
+			}
+		}
+		if err := l.Close(); err != nil {
+			fail("close: %v", err)
+		}
+		for round, rm := range []bool{false, true} {
+			if rm {
+				_ = os.Remove(filepath.Join(dir, "00000000000000000000.index"))
+			}
+			l, err := klevdb.Open(dir, opts)
+			if err != nil {
+				fail("reopen (index removed=%v): %v", rm, err)
+			}
+			n, _ := l.NextOffset()
+			g, gerr := l.Get(N - 1)
+			stt, _ := l.Stat()
+			_ = l.Close()
+			st.Eval(1)
+			if n != N || gerr != nil || g.Offset != N-1 || stt.Messages != N {
+				fail("a segment of %d messages (keys=%v times=%v), reopened (round %d, index file removed=%v): NextOffset %d, Get(last) -> %d,%v, Stat.Messages %d", N, cfg[0], cfg[1], round, rm, n, g.Offset, gerr, stt.Messages)
+			}
+		}
+	}
 }
